@@ -175,6 +175,37 @@ claim("C11",
       "script, see DESIGN.md); two open findings reported as KNOWN-FINDING (star over join with overlapping metadata column; multi-pair RENAME)",
       "DESIGN.md section 2.7 and 4 (C11)")
 
+claim("C05",
+      "REDUCED SCOPE. split kernel: the real helpers.split on a SYMBOLIC list of sqlparse pieces (empty/comment-only, ';'-only, statement "
+      "with symbolic text; up to 5): exactly the statements, in order. assembly: the real LineageRunner on scripts of 2-4 statements "
+      "(10 kinds, ansi/postgres/tsql, table names free so later statements may read earlier targets) versus SQLLineageHolder.of over "
+      "the same statements analysed one by one by fresh runners: equal tables and column pairs, statements() has n entries. tsql "
+      "no-semicolon mode through split_tsql and the segment cache, incl. textually equal statements. NOT claimed: where sqlparse/"
+      "sqlfluff place the cuts in TEXT (semicolons in literals/comments, ';;', newline-only batches) - regex lexers on concrete text; "
+      "met only by the replay of witnesses, which is sampling.",
+      TRUST + "; per-statement holders read through runner._stmt_holders",
+      "DESIGN.md section 4 (C05)")
+claim("C10",
+      "REDUCED SCOPE. monitor: the real runner and every accessor on 26 edge-case statements with free names - only SQLLineageException "
+      "subclasses may escape. silent: an unsupported statement (4 kinds) at SYMBOLIC position k of a 1-3 statement script, normal vs silent "
+      "mode: exception / warning + result equals the script without it, for all names. empty-parse: a statement yielding no segment at "
+      "position k. parse kernel: sqlfluff's Linter stubbed by a SYMBOLIC violations list and SYMBOLIC text over templating/formatting/"
+      "quoting metacharacters: InvalidSyntaxException iff a lex/parse violation is present, never an internal error. NOT claimed: arbitrary "
+      "or mutated TEXT (sqlfluff templater/lexer/parser escape routes such as an unbalanced '{{').",
+      TRUST + "; five internal-error escapes found here were repaired in /repo (vertica swap_partitions, MERGE insert values, multi-pair "
+      "RENAME NetworkXError / KeyError)",
+      "DESIGN.md section 4 (C10)")
+claim("C12",
+      "REDUCED SCOPE. The real LineageRunner with ONE provider object reused: history of 1-2 runs, each clean or failing at SYMBOLIC statement "
+      "position k (unsupported or unparsable statement) or with the provider raising on its j-th lookup, then run B; names free (a table the "
+      "history creates may be the table B reads): B equals B on a fresh provider and after every run, however it ended, the provider "
+      "answers for the learned tables as a fresh one; default shared provider by leaving the argument unset; a complete run B nested "
+      "inside run A's j-th provider lookup (the only points where a run calls out) leaves both unchanged; frame check: no module-level "
+      "mutable object of sqllineage.* changes across a run. NOT claimed: real OS-thread interleavings (runs with their own providers "
+      "share only SQLLineageConfig, which C15 covers, and import-time constants, which the frame check asserts).",
+      TRUST + "; Dummy provider subclass with a fault/nesting counter in the harness",
+      "DESIGN.md section 4 (C12)")
+
 ALL = ["C%02d" % i for i in range(1, 19)]
 
 
